@@ -13,6 +13,7 @@ import (
 	"encoding/binary"
 	"fmt"
 	"strings"
+	"sync"
 	"testing"
 	"time"
 	_ "time/tzdata" // the named zones of the round-trip cases do not depend on the host's zone files
@@ -215,13 +216,16 @@ type ZonedInstant struct {
 	I        Instant `json:"i"`
 	Zone     int     `json:"zone,omitempty"` // minutes east of UTC
 	ZoneName string  `json:"zone_name,omitempty"`
+	// Delta: the agent's server-time correction (dateutil.SetDelta, set on every handshake with a collector whose
+	// clock differs) in force while the helpers are called; it corrects "now", never an instant the caller names
+	Delta int64 `json:"delta,omitempty"`
 }
 
 var zoneNames = []string{"America/New_York", "Europe/Berlin", "Australia/Sydney", "America/Sao_Paulo", "Asia/Seoul", "Pacific/Kiritimati", "Pacific/Pago_Pago"}
 
 var specZoned = pbt.Register(pbt.Spec[ZonedInstant]{
 	Prop: "C19", Name: "helpers-ignore-host-zone",
-	Rule:  "instants drawn as in calendar-random-instants, checked with the process's local zone (time.Local) set to a fixed offset (-12 h ... +14 h) or a named zone with daylight saving (embedded zone database): every helper (date strings, weekday, units, date-string-to-time, time stamps) must give the UTC answers of the standard library - the helpers are bound to a UTC table, an agent host's zone is not an input; non-trivial = every case with a zone other than UTC; distinct by (instant, zone)",
+	Rule:  "instants drawn as in calendar-random-instants, checked with the process's local zone (time.Local) set to a fixed offset (-12 h ... +14 h) or a named zone with daylight saving (embedded zone database): every helper (date strings, weekday, units, date-string-to-time, time stamps) must give the UTC answers of the standard library - the helpers are bound to a UTC table, an agent host's zone is not an input; in half of the cases a server-time correction (dateutil.SetDelta: 1 ms .. 30 days, either sign) is in force, which moves the library's notion of now and must not move an instant the caller names (seed C19-s22); non-trivial = every case with a zone other than UTC; distinct by (instant, zone, correction)",
 	Quick: 60000, Thorough: 1500000,
 	Draw: func(t *rapid.T) ZonedInstant {
 		c := ZonedInstant{I: drawInstant(t)}
@@ -230,11 +234,17 @@ var specZoned = pbt.Register(pbt.Spec[ZonedInstant]{
 		} else {
 			c.Zone = rapid.SampledFrom([]int{540, -480, 330, 345, -210, 60, -60, 780, 840, -720, 1}).Draw(t, "zone")
 		}
+		if rapid.Bool().Draw(t, "skewed") {
+			c.Delta = rapid.SampledFrom([]int64{90500, -90500, 1, -1, 999, -1000, 60000, 300000, 3600000, -3600000, 86400000, -86400000, 30 * 86400000}).Draw(t, "delta")
+		}
 		return c
 	},
 	Run: func(c ZonedInstant) *pbt.Result {
 		old := time.Local
 		defer func() { time.Local = old }()
+		oldDelta := dateutil.GetDelta()
+		dateutil.SetDelta(c.Delta)
+		defer dateutil.SetDelta(oldDelta)
 		name := c.ZoneName
 		if c.ZoneName != "" {
 			loc, err := time.LoadLocation(c.ZoneName)
@@ -248,10 +258,14 @@ var specZoned = pbt.Register(pbt.Spec[ZonedInstant]{
 		}
 		t := baseMs + int64(c.I.Day)*msDay + c.I.Off
 		if err := checkInstant(t); err != nil {
-			return pbt.Fail("with the host zone %s: %v", name, err)
+			return pbt.Fail("with the host zone %s and a server-time correction of %d ms: %v", name, c.Delta, err)
 		}
-		key := binary.BigEndian.AppendUint64([]byte(name), uint64(t))
-		return &pbt.Result{NT: true, Classes: []string{"zone=" + name}, Key: key}
+		key := binary.BigEndian.AppendUint64(binary.BigEndian.AppendUint64([]byte(name), uint64(t)), uint64(c.Delta))
+		cls := []string{"zone=" + name}
+		if c.Delta != 0 {
+			cls = append(cls, "server-time-correction-in-force")
+		}
+		return &pbt.Result{NT: true, Classes: cls, Key: key}
 	},
 })
 
@@ -479,3 +493,68 @@ func TestDateFormat(t *testing.T) {
 		}
 	}
 }
+
+// ---- one DateFormat shared by several goroutines for formatting ------------------------------------
+
+// SharedFmtCase: formatting only reads the pattern, so a formatter kept in a package-level variable (a logger's time
+// stamp format) is used from many goroutines at once; every text must be the text of its own instant (seed C19-s23).
+type SharedFmtCase struct {
+	Pattern string  `json:"pattern"`
+	T       []int64 `json:"t"`  // first instant of every goroutine (Unix ms)
+	N       int     `json:"n"`  // instants per goroutine
+	Step    int64   `json:"st"` // ms between a goroutine's instants
+}
+
+var specSharedFmt = pbt.Register(pbt.Spec[SharedFmtCase]{
+	Prop: "C19", Name: "dateformat-shared-formatter",
+	Rule:  "one DateFormat object (pattern as in dateformat-roundtrip) formats instants of the century on 2-8 goroutines at once (FormatTime only - formatting reads the pattern and nothing else; Parse, which stores the parsed fields in the object, is not called concurrently), 200-2000 instants each; every text must equal the text a fresh object gives for the same instant, and the first and last text of every goroutine must parse back (fresh object) to its instant on every field present; every case is non-trivial; distinct by case",
+	Quick: 40, Thorough: 600,
+	Draw: func(t *rapid.T) SharedFmtCase {
+		c := SharedFmtCase{Pattern: drawPattern(t)}
+		g := rapid.IntRange(2, 8).Draw(t, "goroutines")
+		for i := 0; i < g; i++ {
+			in := drawInstant(t)
+			c.T = append(c.T, baseMs+int64(in.Day)*msDay+in.Off)
+		}
+		c.N = rapid.SampledFrom([]int{200, 500, 2000}).Draw(t, "n")
+		c.Step = rapid.SampledFrom([]int64{1, 7, 999, 1001, 61001, 3599999, 86400001}).Draw(t, "step")
+		return c
+	},
+	Run: func(c SharedFmtCase) *pbt.Result {
+		shared := dateutil.NewDateFormat(c.Pattern)
+		texts := make([][]string, len(c.T))
+		instant := func(g, k int) time.Time {
+			ms := c.T[g] + int64(k)*c.Step
+			if ms >= endMs {
+				ms = baseMs + (ms-baseMs)%(endMs-baseMs)
+			}
+			return time.UnixMilli(ms).In(time.Local)
+		}
+		var wg sync.WaitGroup
+		start := make(chan struct{})
+		for g := range c.T {
+			texts[g] = make([]string, c.N)
+			wg.Add(1)
+			go func(g int) {
+				defer wg.Done()
+				<-start
+				for k := 0; k < c.N; k++ {
+					texts[g][k] = shared.FormatTime(instant(g, k))
+				}
+			}(g)
+		}
+		close(start)
+		wg.Wait()
+		fresh := dateutil.NewDateFormat(c.Pattern)
+		for g := range c.T {
+			for k := 0; k < c.N; k++ {
+				if want := fresh.FormatTime(instant(g, k)); texts[g][k] != want {
+					return pbt.Fail("pattern %q shared by %d goroutines: FormatTime(%s) returned %q to goroutine %d (its call %d); the text of that instant is %q", c.Pattern, len(c.T), instant(g, k).Format(time.RFC3339Nano), texts[g][k], g, k, want)
+				}
+			}
+		}
+		return &pbt.Result{NT: true, Classes: []string{fmt.Sprintf("goroutines=%d", len(c.T))}}
+	},
+})
+
+func TestDateFormatShared(t *testing.T) { specSharedFmt.Check(t) }
